@@ -97,6 +97,28 @@ func (e *Engine) analyse(fn *ssa.Function, blk *Block) *FuncReport {
 		fr.Binds = append(fr.Binds, &Addr{Kind: ACell, Cell: c, FieldT: et})
 	}
 	st.Frames = []*Frame{fr}
+	// ghost call counters start at zero
+	e.regions["cnt.calls"] = &RegionMeta{Name: "cnt.calls", Args: []Sort{SFn}, Res: SInt}
+	st.Heap["cnt.calls"] = e.defineFun("H_cnt.calls", []T{{"f!", SFn}}, SInt, IntLit(0))
+	// definitional axioms of spec functions
+	for _, ab := range e.cs.Blocks {
+		if ab.Kind != "axioms" {
+			continue
+		}
+		for _, cl := range ab.All("axiom") {
+			if m := ab.First("mode"); m != nil && len(m.Words) > 0 && (m.Words[0] == "bv") != e.bv {
+				continue
+			}
+			x, err := parseSpec(cl.Expr)
+			if err != nil {
+				e.fail("%v", err)
+				continue
+			}
+			c := e.specCtx(st, nil)
+			st.assume(c.boolTerm(x))
+			e.note("axiom %s/%s (definition of a spec function): %s", ab.Name, cl.Label(), cl.Expr)
+		}
+	}
 	// spawn contracts: locks handed over to a goroutine body
 	if blk != nil {
 		for _, cl := range blk.All("holds") {
@@ -407,6 +429,7 @@ func (r *Run) scanCallEffects(f *Frame, fn *ssa.Function, ci ssa.CallInstruction
 		return
 	}
 	// dynamic call: closure held in a local? user callback: no package state touched (see unknownCall)
+	regions["cnt.calls"] = true
 	if f != nil {
 		if val, ok := f.Vals[cc.Value]; ok {
 			if c, ok := val.(*Closure); ok {
